@@ -86,7 +86,7 @@ def make_zip(recipe):
         for m in recipe.get("members", []):
             zi = zipfile.ZipInfo(m["name"], date_time=tuple(m.get("date", [2020, 1, 2, 3, 4, 6])))
             zi.compress_type = zipfile.ZIP_DEFLATED if m.get("deflate") else zipfile.ZIP_STORED
-            zi.create_system = 3 if m.get("mode") is not None else 0
+            zi.create_system = 3 if m.get("mode") is not None else m.get("system", 0)
             if m.get("mode") is not None:
                 zi.external_attr = (m["mode"] & 0xFFFF) << 16
             if m["name"].endswith("/"):
